@@ -150,7 +150,8 @@ class LatexEncodingMiddleware(_PyStringTransformerMiddleware):
         try:
             return self._encoder.unicode_to_latex(python_string), ""
         except Exception as e:
-            return python_string, str(e)
+            # An exception without message (e.g. a failed assert) is still an error
+            return python_string, str(e) or type(e).__name__
 
 
 class LatexDecodingMiddleware(_PyStringTransformerMiddleware):
@@ -217,4 +218,5 @@ class LatexDecodingMiddleware(_PyStringTransformerMiddleware):
         try:
             return self._decoder.latex_to_text(python_string), ""
         except Exception as e:
-            return python_string, str(e)
+            # An exception without message (e.g. a failed assert) is still an error
+            return python_string, str(e) or type(e).__name__
